@@ -102,13 +102,43 @@ fn parse_keys(v: &Value) -> Result<Vec<PublicKey>, String> {
 /// {text, threshold, auth: [pubjson], orig?: text}
 pub fn block(case: &Value) -> Value {
     let text = bytes_of(&case["text"]);
-    let parsed = guarded(|| serde_json::from_slice::<Metablock>(&text));
+    // how the bytes written by the library are read back: from memory, from a stream, through a parsed JSON tree
+    let route = case["route"].as_str().unwrap_or("slice").to_string();
+    let parsed = guarded(|| -> Result<Metablock, String> {
+        match route.as_str() {
+            "reader" => serde_json::from_reader::<_, Metablock>(
+                crate::util::ChunkReader::new(&text),
+            )
+            .map_err(|e| e.to_string()),
+            "json_reader" => Json::from_reader::<_, Metablock>(
+                crate::util::ChunkReader::new(&text),
+            )
+            .map_err(|e| e.to_string()),
+            "value" => serde_json::from_slice::<Value>(&text)
+                .and_then(serde_json::from_value::<Metablock>)
+                .map_err(|e| e.to_string()),
+            "json_deserialize" => serde_json::from_slice::<Value>(&text)
+                .map_err(|e| e.to_string())
+                .and_then(|v| {
+                    Json::deserialize::<Metablock>(&v).map_err(|e| e.to_string())
+                }),
+            _ => serde_json::from_slice::<Metablock>(&text)
+                .map_err(|e| e.to_string()),
+        }
+    });
     let mb = match parsed {
         Ok(Ok(mb)) => mb,
-        Ok(Err(e)) => return json!({"parse": {"err": clip(&e.to_string())}}),
+        Ok(Err(e)) => return json!({"parse": {"err": clip(&e)}}),
         Err(p) => return json!({"parse": {"panic": p}}),
     };
+    let mut mb = mb;
     let mut o = json!({"parse": "ok"});
+    if let Some(kind) = case.get("mem_edit").and_then(|v| v.as_str()) {
+        // a change made to the parsed value in memory, through its public fields, after signing
+        let before = mb.metadata.clone();
+        o["mem_edit_applied"] = json!(crate::util::mem_edit(&mut mb, kind));
+        o["mem_edit_changed_value"] = json!(before != mb.metadata);
+    }
     if let Some(orig) = case.get("orig") {
         let ob = bytes_of(orig);
         o["same_as_orig"] = match serde_json::from_slice::<Metablock>(&ob) {
